@@ -142,4 +142,30 @@ theorem drvOp_abandon_closes (s : St) (ha : Acct s) (hri : RouteInv s) (i : Nat)
   refine ⟨s', hs, ?_, hc, step_resKeep ha _ hs, hd⟩
   exact chanOpen_erase_false ha hri hmem hsm (fun j hj => by rw [hq'] at hj; rw [hq]; simp [hj]) htame
 
+/-! ### item 3: a frame routed to a search whose receiver is gone -/
+
+theorem routeSearch_dead_rx (s : St) (c : Nat) (ch : Chan) (f : Frame) (hc : s.chans[c]? = some ch)
+    (hdead : ch.rxAlive = false) (hop : f.op = 4 ∨ f.op = 25 ∨ f.op = 19 ∨ (f.op = 5 ∧ f.good = true)) :
+    routeSearch s c f = { s with searchmap := erase s.searchmap f.id, inUse := eraseId s.inUse f.id } := by
+  by_cases h1 : f.op = 4 ∨ f.op = 25 ∨ f.op = 19
+  · simp only [routeSearch, if_pos h1, hc, hdead]
+    simp
+  · have h5 : f.op = 5 ∧ f.good = true := by
+      rcases hop with h | h | h | h
+      · exact absurd (Or.inl h) h1
+      · exact absurd (Or.inr (Or.inl h)) h1
+      · exact absurd (Or.inr (Or.inr h)) h1
+      · exact h
+    simp only [routeSearch, if_neg h1, if_pos h5.1, h5.2, hc, hdead]
+    simp
+
+theorem drvResp_dead_rx (s : St) (f : Frame) (c : Nat) (ch : Chan) (hr : s.drv = .running)
+    (hf : s.srvLog[s.pos]? = some f) (hl : lookup s.searchmap f.id = some c) (hc : s.chans[c]? = some ch)
+    (hdead : ch.rxAlive = false) (hop : f.op = 4 ∨ f.op = 25 ∨ f.op = 19 ∨ (f.op = 5 ∧ f.good = true)) :
+    Conn.step s .drvResp =
+      some ({ s with pos := s.pos + 1, searchmap := erase s.searchmap f.id, inUse := eraseId s.inUse f.id }, .none) := by
+  have hne : (s.drv ≠ .running) = False := by simp [hr]
+  simp only [Conn.step, hne, if_false, hf, hl]
+  rw [routeSearch_dead_rx ({ s with pos := s.pos + 1 } : St) c ch f hc hdead hop]
+
 end Ldap3V.Conn
